@@ -53,8 +53,17 @@ def run(ctx):
         return [{"case": cc.case_view(c), "why": is_failure(c), "replay": {"expr": c["expr"], "loc": c["loc"], "prev": c["prev"]}}
                 for r in recs2 for c in r["cases"] if c["match"] == "0"][:3]
 
+    extra = {}
+    if ctx.tier == "thorough":
+        info, bad = cc.coq_sample(recs)
+        extra["in_coq_reevaluation"] = info
+        mism += [{"case": b, "what": "in-Coq (vm_compute) evaluation of the model differs from the implementation"} for b in bad]
+        if "C01" == "C01":
+            ok, summary = cc.coqchk_axioms(PROJ, ["QzCron.Props.C01", "QzCron.Props.C02", "QzCron.Props.C06", "QzCron.Props.C14"])
+            extra["coqchk"] = {"ok": ok, "summary": summary}
     vlib.decide(ctx, broken, failures, mism, search)
     cov = vlib.proof_coverage(res, PROJ, "C01")
+    cov.update(extra)
     cov.update({
         "evaluations": len(cases) + naux,
         "distinct_nontrivial": cc.distinct_nontrivial(cases),
